@@ -1277,6 +1277,68 @@ def check_transform_case(case):
     return why
 
 
+def _ops_faces_points(e):
+    """operations, faces and points reachable from an entity (for the addressing-independence check of copies)"""
+    from classy_blocks.construct.flat.face import Face
+    from classy_blocks.construct.operations.operation import Operation
+    from classy_blocks.construct.point import Point
+    ops, faces, points = [], [], []
+    if isinstance(e, Operation):
+        ops = [e]
+    elif hasattr(e, "operations"):
+        try:
+            ops = list(e.operations)
+        except Exception:  # noqa: BLE001
+            ops = []
+    if isinstance(e, Face):
+        faces = [e]
+    elif hasattr(e, "faces") and not ops:
+        try:
+            faces = list(e.faces)
+        except Exception:  # noqa: BLE001
+            faces = []
+    for o in ops:
+        faces += [o.bottom_face, o.top_face]
+    if isinstance(e, Point):
+        points = [e]
+    for f_ in faces:
+        points += list(f_.points)
+    return ops, faces, points
+
+
+def addressing_snapshot(e):
+    """patches, projections of sides / faces / edges / points as the entity holds them (what assembly will read)"""
+    ops, faces, points = _ops_faces_points(e)
+    snap = []
+    for o in ops:
+        snap.append(("patches", sorted((str(k), str(v)) for k, v in o.patch_names.items())))
+        snap.append(("side_projects", [None if x is None else str(x) for x in o.side_projects]))
+        snap.append(("side_edges", [(ed.kind, sorted(map(str, getattr(ed, "label", []) or []))) for ed in o.side_edges]))
+    for f_ in faces:
+        snap.append(("face", None if f_.projected_to is None else str(f_.projected_to), None if f_.patch_name is None else str(f_.patch_name),
+                     [(ed.kind, sorted(map(str, getattr(ed, "label", []) or []))) for ed in f_.edges]))
+    for p_ in points:
+        snap.append(("point", sorted(map(str, p_.projected_to))))
+    return snap
+
+
+def mutate_addressing(c):
+    """address everything addressable on the copy"""
+    ops, faces, points = _ops_faces_points(c)
+    for o in ops:
+        for side in ("bottom", "top", "left", "right", "front", "back"):
+            o.set_patch(side, "zz_copy_" + side)
+        o.project_side("front", "gz_copy", edges=True, points=True)
+        o.project_side("left", "gz_copy2", edges=False, points=False)
+        o.project_corner(6, "gz_copy")
+    if not ops:
+        for f_ in faces:
+            f_.project("gz_copy", edges=True, points=True)
+        if not faces:
+            for p_ in points:
+                p_.project("gz_copy")
+
+
 def check_copy_case(case):
     """copy() is equivalent, independent, and writes the same mesh."""
     np = _np()
@@ -1315,6 +1377,20 @@ def check_copy_case(case):
     why = oracle_transform(normalise_labels(obs_e), normalise_labels(obs_e2), I)
     if why:
         return "copy-shares: transforming the copy changed the original: " + why
+    # independence of the addressing state: patches and projections given to the copy stay with the copy
+    try:
+        with warnings.catch_warnings():
+            warnings.simplefilter("ignore")
+            fresh = mk_entity(spec)
+            c3 = fresh.copy()
+            before = addressing_snapshot(fresh)
+            mutate_addressing(c3)
+            after = addressing_snapshot(fresh)
+    except Exception as ex:
+        return "exception: %s: %s" % (type(ex).__name__, str(ex)[:150])
+    if before != after:
+        diff = [(a, b) for a, b in zip(before, after) if a != b][:2]
+        return "copy-shares: patches/projections assigned to the copy appear on the original: %r" % (diff,)
     why = oracle_transform(normalise_labels(obs_e), normalise_labels(obs_c2), amap)
     if why and not why.startswith("geometry-undefined"):
         return "copy-aliased: the transformed copy is not the image of the original: " + why
